@@ -311,13 +311,14 @@ def r5(ctx):
         yield VIOL("C12-R5", "content-type/header-name", "content type read from header %r" % kv, where=c.span_of_block(g[0]))
     eqs = []
     for cc in [c] + ctx.facts.find_bodies("^" + re.escape(CTC) + r"::\{closure#\d+\}"):
-        eqs += [(cc, bi, t) for bi, t in cmp_calls(cc, r"PartialEq::(eq|ne)$") if "charset" in (cc.slice_op(t["args"][0]).const_values() + cc.slice_op(t["args"][1]).const_values())]
+        eqs += [(cc, bi, t) for bi, t in cmp_calls(cc, r"PartialEq::(eq|ne)$|eq_ignore_ascii_case$") if "charset" in (cc.slice_op(t["args"][0]).const_values() + cc.slice_op(t["args"][1]).const_values())
+                or b"charset" in (cc.slice_op(t["args"][0]).const_values() + cc.slice_op(t["args"][1]).const_values())]
     if len(eqs) != 1:
         yield VIOL("C12-R5", "content-type/charset-compare", "expected one comparison with \"charset\", found %d" % len(eqs), where=loc(c.j["span"]))
     else:
         c, bi, t = eqs[0]
         sls = c.slice_op(t["args"][0]), c.slice_op(t["args"][1])
-        if not any(s.has_call(r"str>::to_lowercase$|to_ascii_lowercase$|eq_ignore_ascii_case$") for s in sls):
+        if not (any(s.has_call(r"str>::to_lowercase$|to_ascii_lowercase$|eq_ignore_ascii_case$") for s in sls) or t["callee"].endswith("eq_ignore_ascii_case")):
             yield VIOL("C12-R5", "content-type/charset-case", "the charset parameter name is compared case-sensitively (`Charset=` would be ignored and the body decoded as UTF-8)", where=c.span_of_block(bi))
         else:
             yield PASS("C12-R5", "content-type/charset-case", "parameter name lower-cased before comparison with \"charset\"", [site(c, bi, "eq")])
